@@ -231,6 +231,16 @@ fn main() {
         let pages = (lead + len + PAGE - 1) / PAGE;
         let below = r["below"].as_str().unwrap_or("guard");
         let above = r["above"].as_str().unwrap_or("guard");
+        // "page_zero": the region is the page at address 0 (legal for a privileged process or with vm.mmap_min_addr = 0); it keeps
+        // the zeros the kernel gives it (nothing here may form a reference to address 0)
+        if r["page_zero"].as_bool().unwrap_or(false) {
+            let prot = if r["exec"].as_bool().unwrap_or(false) { libc::PROT_READ | libc::PROT_EXEC } else { libc::PROT_READ | libc::PROT_WRITE };
+            let a = unsafe { libc::mmap(std::ptr::null_mut(), PAGE, prot, libc::MAP_PRIVATE | libc::MAP_ANONYMOUS | libc::MAP_FIXED, -1, 0) };
+            let ok = a != libc::MAP_FAILED && a as usize == 0;
+            region_addr.insert(name.clone(), (0, PAGE, 0, PAGE));
+            regions.insert(name, json!({"addr": 0, "len": PAGE, "map_start": 0, "map_len": PAGE, "mapped": ok}));
+            continue;
+        }
         let inner = unsafe { carve(pages.max(1), below, above, r["low_addr"].as_u64().unwrap_or(0) as usize) };
         fill_pattern(inner, pages.max(1) * PAGE);
         // "ones_before_end": [k, ..]: eight 0xff bytes starting k bytes before the end of the inner pages (content that looks
